@@ -53,6 +53,7 @@ def tasks(tier, seed):
         T.append(('iteration', M, L, alpha))
     for (M, L, alpha) in (((1, 2, 0.5), (2, 3, 1e-2), (1, 4, 1e-4)) if quick else ((1, 2, 0.5), (2, 3, 1e-2), (1, 4, 1e-4), (2, 5, 1e-6), (3, 4, 1e-3))):
         T.append(('roundtrip', M, L, alpha))
+    T.append(('wholerun',))
     # an existing controller switched to another alpha (params.alpha + set_G_inv on every step) after it has been used
     for (M, L, alpha, first) in (((2, 3, 1e-1, 1e-4), (1, 4, 1e-3, 0.5)) if quick else ((2, 3, 1e-1, 1e-4), (1, 4, 1e-3, 0.5), (2, 4, 1e-6, 1e-2), (3, 2, 0.5, 1e-8))):
         T.append(('iteration', M, L, alpha, first))
@@ -71,6 +72,8 @@ def run_task(rep, task):
         iteration_case(rep, *task[1:])
     elif task[0] == 'roundtrip':
         roundtrip_case(rep, *task[1:])
+    elif task[0] == 'wholerun':
+        wholerun_case(rep)
 
 
 def cbox(vs):
@@ -247,6 +250,53 @@ def one_iteration(ctl, u0, U):
         S.status.stage = 'IT_PARADIAG'
     ctl.it_ParaDiag(ctl.MS)
     return [[ctl.MS[l].levels[0].u[m][0] for m in range(1, M + 1)] for l in range(L)]
+
+
+def wholerun_case(rep):
+    """a converged ParaDiag run over SEVERAL blocks from a start time t0 (also t0 != 0) returns the values of sequential collocation stepping over [t0, Tend], and
+    its blocks tile that interval (real float classes; concrete, ENUMERATED: the block sequencing of the controller is not reached by the one-iteration cases)"""
+    from pySDC.core.hooks import Hooks
+    from pySDC.implementations.controller_classes.controller_ParaDiag_nonMPI import controller_ParaDiag_nonMPI
+    from pySDC.implementations.controller_classes.controller_nonMPI import controller_nonMPI
+    from pySDC.implementations.sweeper_classes.ParaDiagSweepers import QDiagonalization
+    from pySDC.implementations.sweeper_classes.generic_implicit import generic_implicit
+
+    starts = []
+
+    class RecT(Hooks):
+        def pre_step(self, step, level_number):
+            super().pre_step(step, level_number)
+            starts.append(float(step.levels[0].time))
+
+    for (L, M, alpha, lam, dt, t0, nblocks) in ((2, 2, 1e-4, -1.0 + 0.5j, 0.25, 0.0, 2), (2, 2, 1e-4, -1.0 + 0.5j, 0.25, 0.7, 2), (3, 1, 1e-6, -2.0, 0.125, -2.0, 3), (2, 3, 1e-3, -0.5j, 0.25, 1.5, 2)):
+        name = f'wholerun/L{L}/M{M}/alpha{alpha:g}/t0={t0:g}/{nblocks}blocks'
+        Tend = t0 + L * nblocks * dt
+        try:
+            starts.clear()
+            d = dict(problem_class=FPDProb, problem_params={'lam': lam}, sweeper_class=QDiagonalization, sweeper_params={'num_nodes': M, 'quad_type': 'RADAU-RIGHT'},
+                     level_params={'dt': dt, 'restol': 1e-12}, step_params={'maxiter': 60})
+            ctl = controller_ParaDiag_nonMPI(L, {'logger_level': 50, 'dump_setup': False, 'alpha': alpha, 'average_jacobian': False, 'hook_class': [RecT]}, d)
+            P = ctl.MS[0].levels[0].prob
+            u0 = P.dtype_u(P.init)
+            u0[:] = 1.0 + 0.25j
+            up, _ = ctl.run(u0, t0, Tend)
+            got_starts = sorted(set(round(x, 12) for x in starts))
+            d2 = dict(problem_class=FPDProb, problem_params={'lam': lam}, sweeper_class=generic_implicit, sweeper_params={'num_nodes': M, 'quad_type': 'RADAU-RIGHT', 'QI': 'LU'},
+                      level_params={'dt': dt, 'restol': 1e-13}, step_params={'maxiter': 80})
+            seq = controller_nonMPI(1, {'logger_level': 50, 'dump_setup': False}, d2)
+            Ps = seq.MS[0].levels[0].prob
+            v0 = Ps.dtype_u(Ps.init)
+            v0[:] = 1.0 + 0.25j
+            us, _ = seq.run(v0, t0, Tend)
+            dev = float(abs(complex(up[0]) - complex(us[0])))
+            exp_starts = [round(t0 + k * dt, 12) for k in range(L * nblocks)]
+            rep.translator += 1
+            if dev > 1e-9 or got_starts != exp_starts:
+                rep.replayed += 1
+                rep.violation(f'{PID}/whole-run/{"block-times" if got_starts != exp_starts else "value"}', f'{name}: ParaDiag returns {complex(up[0])!r}, sequential collocation stepping {complex(us[0])!r} (difference {dev:.3e}); step start times {got_starts}, expected {exp_starts}',
+                              {'task': ['wholerun'], 'L': L, 'M': M, 'alpha': alpha, 't0': t0, 'blocks': nblocks, 'deviation': dev})
+        except Exception as e:
+            rep.side(name + ':runs', False, f'{type(e).__name__}: {e}')
 
 
 def roundtrip_case(rep, M, L, alpha):
